@@ -51,8 +51,20 @@ def _alarm(signum, frame):
   raise Timeout()
 
 
+_CLOCK = {'t0': 0.0, 'budget': 0.0}
+
+
+def soft_deadline(frac=0.6, k=None, at_least=1):
+  """bounded stand-ins explore until a fraction of their wall budget is used (never fewer than `at_least` iterations): under machine load they then report what they covered
+  instead of running into the budget (an exhausted budget is `undecided`, which is not an answer for a check whose only claim is "held on everything explored")"""
+  if k is not None and k < at_least:
+    return False
+  return _CLOCK['budget'] > 0 and time.time() > _CLOCK['t0'] + frac * _CLOCK['budget']
+
+
 def execute(ob: Obligation) -> Result:
   t0 = time.time()
+  _CLOCK['t0'], _CLOCK['budget'] = t0, float(ob.budget)
   old = signal.signal(signal.SIGALRM, _alarm)
   signal.alarm(int(ob.budget))
   try:
@@ -367,11 +379,22 @@ def smt_prove(alg: Z3Alg, pre, goal, timeout_s=30, name='', use_cvc5=True, side=
     if r2 == 'unsat':
       stats['solver'] = 'cvc5 (after z3 unknown)'
       return Result(PROVED, 'unsat (cvc5)', stats=stats)
+  gr = _guided_refute(alg, pre, goals, seed, min(60, max(20, timeout_s)))
+  if gr is not None:
+    stats['solver_s'] = round(time.time() - t0, 3)
+    stats['queries'] += gr[2]
+    return Result(REFUTED, 'sat (guided search: inputs fixed to sampled rationals satisfying the precondition, %s; callee outputs left to the solver)' % gr[3], witness=gr[0], stats=stats, solver_output=gr[1][:4000])
   if len(goals) > 1:
     # clause split: the negated conjunction is a disjunction; each disjunct alone is a much easier query (a counterexample of ONE clause is a counterexample of the
     # conjunction, and the conjunction is valid iff every clause is)
     open_, t1 = 0, time.time()
     per = max(10, min(int(timeout_s), 60))
+    def _size(g_):
+      try:
+        return len(g_.sexpr())
+      except Exception:      # noqa: BLE001
+        return 0
+    goals = sorted(goals, key=_size)      # cheapest clauses first: a counterexample of a small clause is found before the budget goes into the large ones
     for k, g in enumerate(goals):
       if time.time() - t1 > 4 * timeout_s:
         open_ += len(goals) - k
@@ -385,6 +408,34 @@ def smt_prove(alg: Z3Alg, pre, goal, timeout_s=30, name='', use_cvc5=True, side=
       sk.add(z3.Not(g))
       rk = sk.check()
       stats['queries'] += 1
+      if rk == z3.unknown:
+        # cone of influence: only the hypotheses that share a symbol (transitively) with this clause.  unsat of the slice => unsat; a model of the slice together with a model
+        # of the (symbol-disjoint) remainder is a model of the whole query
+        hyps = [a for a in list(pre) + list(alg.assume) if not isinstance(a, bool)]
+        inn, out_ = _cone(hyps, z3.Not(g))
+        if out_:
+          s1 = z3.Solver()
+          s1.set('timeout', per * 1000)
+          s1.set('random_seed', seed)
+          s1.add(*inn)
+          s1.add(z3.Not(g))
+          r1 = s1.check()
+          stats['queries'] += 1
+          if r1 == z3.unsat:
+            rk = r1
+          elif r1 == z3.sat:
+            s2 = z3.Solver()
+            s2.set('timeout', per * 1000)
+            s2.add(*out_)
+            if s2.check() == z3.sat:
+              m1, m2 = s1.model(), s2.model()
+              wit = {}
+              for nm, v in alg.vars.items():
+                a1 = _model_value(m1, v)
+                wit[nm] = a1 if m1[v] is not None else _model_value(m2, v)
+              stats['solver_s'] = round(time.time() - t0, 3)
+              return Result(REFUTED, 'sat (clause %d of %d on its cone of influence; the symbol-disjoint remainder of the hypotheses is satisfiable)' % (k + 1, len(goals)), witness=wit,
+                            stats=stats, solver_output=(str(m1) + str(m2))[:4000])
       if rk == z3.sat:
         m = sk.model()
         wit = {nm: _model_value(m, v) for nm, v in alg.vars.items()}
@@ -396,6 +447,153 @@ def smt_prove(alg: Z3Alg, pre, goal, timeout_s=30, name='', use_cvc5=True, side=
     if open_ == 0:
       return Result(PROVED, 'unsat (clause by clause, after the joint query was unknown)', stats=stats)
   return Result(UNDECIDED, 'z3: unknown (%s)' % reason, stats=stats)
+
+
+_UNIT3 = [(0, 0, 1), (0, 0, -1), (1, 0, 0), (0, -1, 0), ('3/5', '4/5', 0), ('2/3', '-1/3', '2/3'), ('-2/7', '3/7', '6/7'), ('4/9', '4/9', '-7/9'), (0, '-5/13', '12/13')]
+_UNIT4 = [(1, 0, 0, 0), ('1/2', '1/2', '1/2', '1/2'), ('4/5', '3/5', 0, 0), ('2/3', 0, '-2/3', '1/3'), ('1/2', '-1/2', '1/2', '-1/2'), ('2/7', '3/7', 0, '6/7'), ('4/5', 0, 0, '-3/5')]
+
+
+def _unit_groups(pre):
+  """hypotheses of the form  sum_i v_i*v_i == 1  over 3 or 4 distinct constants: those constants are sampled from rational points of the sphere"""
+  import z3
+  groups = []
+  for a in pre:
+    if isinstance(a, bool) or not z3.is_eq(a):
+      continue
+    a = z3.simplify(a, som=False)
+    if not z3.is_eq(a):
+      continue
+    l, r = a.children()
+    if z3.is_rational_value(l):
+      l, r = r, l
+    if not (z3.is_rational_value(r) and r.as_fraction() == 1 and z3.is_add(l)):
+      continue
+    terms, stack = [], [l]
+    while stack:
+      t = stack.pop()
+      if z3.is_add(t):
+        stack.extend(t.children())
+      elif not (z3.is_rational_value(t) and t.as_fraction() == 0):
+        terms.append(t)
+    vs = []
+    for t in terms:
+      if z3.is_app(t) and t.decl().kind() == z3.Z3_OP_POWER and z3.is_rational_value(t.children()[1]) and t.children()[1].as_fraction() == 2:
+        t = t.children()[0] * t.children()[0]
+      ch = t.children()
+      if z3.is_mul(t) and len(ch) == 2 and ch[0].get_id() == ch[1].get_id() and z3.is_const(ch[0]) and ch[0].decl().kind() == z3.Z3_OP_UNINTERPRETED:
+        vs.append(ch[0])
+      else:
+        vs = None
+        break
+    if vs and len(vs) in (3, 4) and len({v.get_id() for v in vs}) == len(vs):
+      groups.append(vs)
+  return groups
+
+
+def _guided_refute(alg, pre, goals, seed, budget_s):
+  """counterexample search for queries the solvers leave open: every INPUT variable (algebra variables created by the obligation body; names without '!') is fixed to a sampled
+  rational -- unit-norm groups from rational points of the sphere, the rest from a small signed set, redrawn until the precondition holds -- and only the callee outputs introduced
+  by cut handlers (names with '!', uninterpreted functions) are left to the solver.  Any `sat` is a model of the original query; nothing else is concluded (sound for refutation only)."""
+  import random
+  import z3
+  t0 = time.time()
+  hyps_pre = [a for a in pre if not isinstance(a, bool)]
+  hyps_as = [a for a in alg.assume if not isinstance(a, bool)]
+  notg = z3.Not(z3.And(*goals)) if len(goals) > 1 else z3.Not(goals[0])
+  inputs = {nm: v for nm, v in alg.vars.items() if '!' not in nm and z3.is_real(v) and z3.is_const(v)}
+  if not inputs:
+    return None
+  groups = _unit_groups(hyps_pre)
+  ingroup = {}
+  for gi, vs in enumerate(groups):
+    for j, v in enumerate(vs):
+      ingroup.setdefault(v.decl().name(), (gi, j))
+  rnd = random.Random(1000 + seed)
+  vals = ['1/4', '1/2', '1', '3/2', '2', '3', '1/3', '5/4']
+  q = 0
+  for k in range(200):
+    if time.time() - t0 > budget_s:
+      break
+    pick = [rnd.choice(_UNIT3 if len(vs) == 3 else _UNIT4) for vs in groups]
+    positive = (k % 3 == 0)
+    asg = {}
+    for nm in inputs:
+      if nm in ingroup:
+        gi, j = ingroup[nm]
+        asg[nm] = str(pick[gi][j])
+      else:
+        asg[nm] = rnd.choice(vals) if (positive or rnd.random() < 0.5) else '-' + rnd.choice(vals)
+    sub = [(inputs[nm], z3.RealVal(x)) for nm, x in asg.items()]
+    ps = [z3.simplify(z3.substitute(a, *sub)) for a in hyps_pre]
+    if any(z3.is_false(a) for a in ps):
+      # repair simple sign preconditions by flipping the offending variables to positive values once
+      for a0 in hyps_pre:
+        if z3.is_false(z3.simplify(z3.substitute(a0, *sub))):
+          for nm in _syms_of(a0, {}):
+            if nm in asg and nm not in ingroup:
+              asg[nm] = asg[nm].lstrip('-')
+      sub = [(inputs[nm], z3.RealVal(x)) for nm, x in asg.items()]
+      ps = [z3.simplify(z3.substitute(a, *sub)) for a in hyps_pre]
+      if any(z3.is_false(a) for a in ps):
+        continue
+    g1 = z3.simplify(z3.substitute(notg, *sub))
+    if z3.is_false(g1):
+      continue
+    s = z3.Solver()
+    s.set('timeout', 4000)
+    s.add(*[a for a in ps if not z3.is_true(a)])
+    s.add(*[z3.simplify(z3.substitute(a, *sub)) for a in hyps_as])
+    s.add(g1)
+    q += 1
+    if s.check() == z3.sat:
+      m = s.model()
+      wit = {}
+      for nm, v in alg.vars.items():
+        wit[nm] = asg[nm] if nm in asg else _model_value(m, v)
+      return wit, 'inputs: %s\nmodel of the callee outputs: %s' % (asg, m), q, 'draw %d' % (k + 1)
+  return None
+
+
+def _syms_of(e, cache):
+  import z3
+  k = e.get_id()
+  if k in cache:
+    return cache[k]
+  out, stack, seen = set(), [e], set()
+  while stack:
+    t = stack.pop()
+    i = t.get_id()
+    if i in seen:
+      continue
+    seen.add(i)
+    if z3.is_app(t):
+      if t.decl().kind() == z3.Z3_OP_UNINTERPRETED:
+        out.add(t.decl().name())
+      stack.extend(t.children())
+    elif z3.is_quantifier(t):
+      stack.append(t.body())
+  cache[k] = out
+  return out
+
+
+def _cone(hyps, target):
+  """split hyps into those connected to target through shared uninterpreted symbols (constants and functions) and the rest"""
+  cache = {}
+  S = set(_syms_of(target, cache))
+  rest, inn, changed = list(hyps), [], True
+  while changed:
+    changed = False
+    keep = []
+    for a in rest:
+      sa = _syms_of(a, cache)
+      if sa & S:
+        inn.append(a)
+        S |= sa
+        changed = True
+      else:
+        keep.append(a)
+    rest = keep
+  return inn, rest
 
 
 def _cvc5(smt2, timeout_s):
